@@ -1,8 +1,8 @@
 (* Comparison of model observations with the implementation's canonicalised observations
    (used only by the generated correspondence files) and the scripted answer tables. *)
 From Coq Require Import ZArith List Bool.
-From Common Require Import Res Cases.
-From Routing Require Import Model.
+From Common Require Import Res Str Cases.
+From Routing Require Import Model Scheme.
 Import ListNotations.
 Open Scope Z_scope.
 
@@ -132,16 +132,24 @@ Fixpoint script (l : list (meth * resp)) (m : meth) (a : arg) : resp :=
   | (m', r) :: t => if meth_eqb m m' then r else script t m a
   end.
 
+(* c_texts: every URI string of the case with the scheme urllib.parse.urlparse gave for it
+   (the oracle behind the scheme ids); checked against the transcription Scheme.scheme_of *)
 Record case := mkCase {
   c_backends : list backend;
   c_mixer : option mixer;
   c_op : op;
   c_ordered : bool;
+  c_texts : list (str * str);
   c_impl : obs
 }.
 
+Definition texts_ok (c : case) : bool :=
+  forallb (fun p => Str.str_eqb (scheme_of (fst p)) (snd p)) (c_texts c).
+
 Definition case_ok (c : case) : bool :=
-  obs_eqb (c_ordered c) (run (c_backends c) (c_mixer c) (c_op c)) (c_impl c).
+  texts_ok c && obs_eqb (c_ordered c) (run (c_backends c) (c_mixer c) (c_op c)) (c_impl c).
 (* the same cases against the model of the code before the fix: commits *)
 Definition case_ok_old (c : case) : bool :=
-  obs_eqb (c_ordered c) (run_old (c_backends c) (c_mixer c) (c_op c)) (c_impl c).
+  texts_ok c && obs_eqb (c_ordered c) (run_old (c_backends c) (c_mixer c) (c_op c)) (c_impl c).
+
+Definition scheme_case_ok (p : str * str) : bool := Str.str_eqb (scheme_of (fst p)) (snd p).
